@@ -2,7 +2,283 @@
 
 package main
 
-type importCase struct{}
+import (
+	"fmt"
+	"os"
+	"path/filepath"
+	"sort"
+	"strings"
+)
 
-func unitC17(x *ctx)                  {}
-func c17One(x *ctx, c importCase) bool { return false }
+// importCase: n files in nested directories; Edges[i][j] = file i imports file j.
+type importCase struct {
+	N       int      `json:"n"`
+	Edges   [][2]int `json:"edges"`
+	Broken  int      `json:"broken"` // index of the broken file, -1 none
+	How     string   `json:"how"`    // "missing" | "unparsable"
+	Formats []string `json:"formats"`
+	Special string   `json:"special,omitempty"`
+	Split   int      `json:"split,omitempty"` // global/project split mask
+}
+
+var fileDirs = []string{"", "sub", "sub/deep", "other"}
+
+func (c importCase) fileName(i int) string {
+	return filepath.Join(fileDirs[i], fmt.Sprintf("f%d.%s", i, c.Formats[i]))
+}
+
+func (c importCase) String() string {
+	return fmt.Sprintf("n=%d edges=%v broken=%d/%s formats=%v special=%s split=%d", c.N, c.Edges, c.Broken, c.How, c.Formats, c.Special, c.Split)
+}
+
+func (c importCase) content(i int) string {
+	var imports []string
+	for _, e := range c.Edges {
+		if e[0] == i {
+			rel, _ := filepath.Rel(filepath.Join("/r", fileDirs[i]), filepath.Join("/r", c.fileName(e[1])))
+			imports = append(imports, rel)
+		}
+	}
+	doc := M{
+		"tasks":     M{fmt.Sprintf("t%d", i): M{"command": L{fmt.Sprintf("echo %d", i)}, "env": M{"A": "b"}}},
+		"pipelines": M{fmt.Sprintf("p%d", i): L{M{"task": fmt.Sprintf("t%d", i), "name": "s"}}},
+	}
+	if len(imports) > 0 {
+		l := L{}
+		for _, s := range imports {
+			l = append(l, s)
+		}
+		doc["import"] = l
+	}
+	var b []byte
+	switch c.Formats[i] {
+	case "yaml":
+		b, _ = emitYAML(doc)
+	case "json":
+		b, _ = emitJSON(doc)
+	case "toml":
+		b, _ = emitTOML(doc)
+	}
+	return string(b)
+}
+
+// reachable: files reached from f0 through imports; the imports of a broken file are not followed.
+func (c importCase) reachable() map[int]bool {
+	r := map[int]bool{0: true}
+	for changed := true; changed; {
+		changed = false
+		for _, e := range c.Edges {
+			if e[0] == c.Broken {
+				continue
+			}
+			if r[e[0]] && !r[e[1]] {
+				r[e[1]] = true
+				changed = true
+			}
+		}
+	}
+	return r
+}
+
+func c17One(x *ctx, c importCase) bool {
+	dir := newCaseDir(x.root)
+	defer os.RemoveAll(dir)
+	lc := LoadCase{Files: map[string]string{}, Main: c.fileName(0), Note: c.String()}
+	var wantTasks, wantPipes []string
+	wantErr := false
+	switch c.Special {
+	case "":
+		reach := c.reachable()
+		for i := 0; i < c.N; i++ {
+			switch {
+			case i == c.Broken && c.How == "missing":
+			case i == c.Broken && c.How == "unparsable":
+				lc.Files[c.fileName(i)] = map[string]string{"yaml": "tasks: [unclosed\n  x: {", "json": "{\"tasks\": ", "toml": "[tasks\nx ="}[c.Formats[i]]
+			default:
+				lc.Files[c.fileName(i)] = c.content(i)
+			}
+		}
+		if c.Broken >= 0 && reach[c.Broken] {
+			wantErr = true
+		}
+		for i := 0; i < c.N; i++ {
+			if reach[i] && i != c.Broken {
+				wantTasks = append(wantTasks, fmt.Sprintf("t%d", i))
+				wantPipes = append(wantPipes, fmt.Sprintf("p%d", i))
+			}
+		}
+	case "dir0", "dir1", "dir2", "dir-nested":
+		// directory import: sub/ contains k yaml files and one non-yaml file
+		k := map[string]int{"dir0": 0, "dir1": 1, "dir2": 2, "dir-nested": 2}[c.Special]
+		lc.Files["f0.yaml"] = "import: [sub]\ntasks:\n  t0:\n    command: echo 0\n"
+		lc.Files["sub/readme.txt"] = "not a config"
+		wantTasks = []string{"t0"}
+		for i := 1; i <= k; i++ {
+			body := fmt.Sprintf("tasks:\n  d%d:\n    command: echo d\n", i)
+			if c.Special == "dir-nested" && i == 1 {
+				body = "import: [deep/x.yaml]\n" + body
+				lc.Files["sub/deep/x.yaml"] = "tasks:\n  dx:\n    command: echo x\n"
+				wantTasks = append(wantTasks, "dx")
+			}
+			lc.Files[fmt.Sprintf("sub/d%d.yaml", i)] = body
+			wantTasks = append(wantTasks, fmt.Sprintf("d%d", i))
+		}
+		if k == 0 {
+			lc.Files["sub/keep.txt"] = "x"
+		}
+		lc.Main = "f0.yaml"
+	case "twice", "two-spellings", "dir-and-file":
+		imp := map[string]string{"twice": "[sub/f1.yaml, sub/f1.yaml]", "two-spellings": "[sub/f1.yaml, sub/../sub/f1.yaml, ./sub/f1.yaml]", "dir-and-file": "[sub, sub/f1.yaml]"}[c.Special]
+		lc.Files["f0.yaml"] = "import: " + imp + "\ntasks:\n  t0:\n    command: echo 0\n"
+		lc.Files["sub/f1.yaml"] = "tasks:\n  t1:\n    command: echo 1\npipelines:\n  p1:\n    - task: t1\n      name: s\n"
+		lc.Main = "f0.yaml"
+		wantTasks, wantPipes = []string{"t0", "t1"}, []string{"p1"}
+	case "global":
+		// 4 definitions, each in the global file (bit set) or the project file
+		g, p := M{}, M{}
+		put := func(bit int, section, name string, val interface{}) {
+			dst := p
+			if c.Split&(1<<uint(bit)) != 0 {
+				dst = g
+			}
+			sec, _ := dst[section].(M)
+			if sec == nil {
+				sec = M{}
+				dst[section] = sec
+			}
+			sec[name] = val
+		}
+		put(0, "tasks", "gt", M{"command": L{"echo {{.gv}}"}})
+		put(1, "contexts", "gc", M{"dir": "."})
+		put(2, "variables", "gv", "value")
+		put(3, "tasks", "pt", M{"command": "echo p"})
+		gb, _ := emitYAML(g)
+		pb, _ := emitYAML(p)
+		if len(g) > 0 {
+			lc.Home = map[string]string{".taskctl/config.yaml": string(gb)}
+		}
+		lc.Files["f0.yaml"] = string(pb)
+		if len(p) == 0 {
+			lc.Files["f0.yaml"] = "{}\n"
+		}
+		lc.Main = "f0.yaml"
+		wantTasks = []string{"gt", "pt"}
+	}
+	sort.Strings(wantTasks)
+	sort.Strings(wantPipes)
+	r := loadInProcess(dir, lc)
+	x.res.Evaluations++
+	x.kinds[fmt.Sprintf("edges=%d broken=%v special=%s", len(c.Edges), c.Broken >= 0, c.Special)] = true
+	switch {
+	case r.hang:
+		x.violation("hang", c.String(), "loading did not terminate within 30s: "+c.String(), c, false)
+		return true
+	case r.panic != "":
+		x.violation("panic", r.site+":"+msgClass(r.panic), fmt.Sprintf("Loader.Load panicked in %s: %s (%s)", r.site, r.panic, c), c, false)
+		return true
+	case wantErr && r.err == nil:
+		x.violation("broken-import-ignored", fmt.Sprintf("how=%s", c.How), fmt.Sprintf("file %s is %s and reachable through imports but loading succeeded with tasks %v (%s)", c.fileName(c.Broken), c.How, r.tasks, c), c, false)
+		return true
+	case !wantErr && r.err != nil:
+		x.violation("spurious-error", c.String(), fmt.Sprintf("loading failed: %v (%s)", r.err, c), c, false)
+		return true
+	case wantErr:
+		return false
+	}
+	if strings.Join(r.tasks, ",") != strings.Join(wantTasks, ",") {
+		x.violation("wrong-closure", c.String(), fmt.Sprintf("loaded tasks %v, reachable closure defines %v (%s)", r.tasks, wantTasks, c), c, false)
+		return true
+	}
+	if c.Special != "global" && strings.Join(r.pipes, ",") != strings.Join(wantPipes, ",") {
+		x.violation("wrong-closure", c.String(), fmt.Sprintf("loaded pipelines %v, reachable closure defines %v (%s)", r.pipes, wantPipes, c), c, false)
+		return true
+	}
+	for p, n := range r.stages {
+		if n != 1 {
+			x.violation("not-once", c.String(), fmt.Sprintf("pipeline %s has %d stages, declared 1 (%s)", p, n, c), c, false)
+			return true
+		}
+	}
+	if c.Special == "global" {
+		if r.cfg.Contexts["gc"] == nil {
+			x.violation("global-missing", fmt.Sprintf("context split=%d", c.Split), "context gc is not available ("+c.String()+")", c, false)
+			return true
+		}
+		if v, _ := r.cfg.Variables.Get("gv").(string); v != "value" {
+			x.violation("global-missing", fmt.Sprintf("variable split=%d", c.Split&4), fmt.Sprintf("variable gv = %q, expected \"value\" (%s)", v, c), c, false)
+			return true
+		}
+	}
+	return false
+}
+
+func unitC17(x *ctx) {
+	do := func(c importCase) {
+		x.idx++
+		if x.stop || !mine(x.idx) {
+			return
+		}
+		if x.res.Evaluations%211 == 0 {
+			x.res.AddSample(c.String())
+		}
+		c17One(x, c)
+	}
+	yaml3 := []string{"yaml", "yaml", "yaml", "yaml"}
+	relations := func(n int, f func(edges [][2]int)) {
+		for mask := 0; mask < 1<<uint(n*n); mask++ {
+			var es [][2]int
+			k := 0
+			for i := 0; i < n; i++ {
+				for j := 0; j < n; j++ {
+					if mask&(1<<uint(k)) != 0 {
+						es = append(es, [2]int{i, j})
+					}
+					k++
+				}
+			}
+			f(es)
+			if x.stop {
+				return
+			}
+		}
+	}
+	switch *common_Unit() {
+	case "c17-graphs3": // every import relation on 3 files x {fine, file i missing, file i unparsable}
+		relations(3, func(es [][2]int) {
+			do(importCase{N: 3, Edges: es, Broken: -1, Formats: yaml3})
+			for _, b := range []int{1, 2} {
+				for _, how := range []string{"missing", "unparsable"} {
+					do(importCase{N: 3, Edges: es, Broken: b, How: how, Formats: yaml3})
+				}
+			}
+		})
+	case "c17-formats": // relations with <=2 edges x every assignment of formats
+		fm := []string{"yaml", "json", "toml"}
+		relations(3, func(es [][2]int) {
+			if len(es) > 2 {
+				return
+			}
+			for _, a := range fm {
+				for _, b := range fm {
+					for _, c := range fm {
+						do(importCase{N: 3, Edges: es, Broken: -1, Formats: []string{a, b, c}})
+					}
+				}
+			}
+		})
+	case "c17-special":
+		for _, s := range []string{"dir0", "dir1", "dir2", "dir-nested", "twice", "two-spellings", "dir-and-file"} {
+			do(importCase{Special: s, Broken: -1, Formats: yaml3})
+		}
+		for split := 0; split < 16; split++ {
+			do(importCase{Special: "global", Split: split, Broken: -1, Formats: yaml3})
+		}
+	case "c17-graphs4": // thorough: every relation on 4 files, fault free
+		relations(4, func(es [][2]int) {
+			do(importCase{N: 4, Edges: es, Broken: -1, Formats: yaml3})
+		})
+	default:
+		fmt.Fprintln(os.Stderr, "unknown unit")
+		os.Exit(2)
+	}
+}
